@@ -60,11 +60,48 @@ class KeyCheck(Analysis):
             while e is not None and e.k == "UnaryOperator" and e.v == "!":
                 neg = not neg
                 e = strip(e.kids[0])
-            if e is not None and e.k == "CallExpr" and callee(e)[0] == "fn" and callee(e)[1] in CHECKERS:
+            if e is not None and e.k == "CallExpr" and callee(e)[0] == "fn" and (
+                    callee(e)[1] in CHECKERS or callee(e)[1] in getattr(self, "cond_checkers", ())):
                 ok_label = "F" if neg else "T"
                 if label == ok_label:
                     st = sset(st, "kc", True)
         return st
+
+
+def conditional_checkers(tu):
+    """repository functions that return non-zero only after the comparability
+    check succeeded - or with one of their pointer parameters NULL (the
+    conversion step of a store factored out of _bucket_set: a delete, value
+    NULL, needs no check and inserts nothing)"""
+    out = set()
+    for name in tu.order:
+        fn = tu.funcs[name]
+        if name in CHECKERS or tu.body(name) is None or (fn.t or "").split("(")[0].strip() != "int":
+            continue
+        if not any(n.k == "CallExpr" and callee(n)[0] == "fn" and callee(n)[1] in CHECKERS for n in fn.walk()):
+            continue
+        cfg = CFG(fn)
+        an = KeyCheck(cfg, tu, set())
+        an.track_flags = False
+        an.solve()
+        ptr_params = [k.n for k in fn.kids if k.k == "ParmVarDecl" and (k.t or "").strip().endswith("*")]
+        ok = True
+        seen = False
+        for r in cfg.returns():
+            for st in an.IN.get(r.id, ()):
+                st2 = an.flags_stmt(r, st)
+                v = an.flag_value_of(r.e, st2) if r.e is not None else None
+                if v == 0:
+                    continue                      # the failure answer
+                seen = True
+                if sget(st2, "kc"):
+                    continue
+                if any(sget(st2, "f:" + p) == 0 for p in ptr_params):
+                    continue
+                ok = False
+        if ok and seen:
+            out.add(name)
+    return out
 
 
 def analyse_tu(tu):
@@ -88,6 +125,16 @@ def analyse_tu(tu):
                 if l is not None and l.k == "DeclRefExpr" and r is not None and r.k == "DeclRefExpr" \
                         and r.n in keyvars:
                     keyvars.add(l.n)
+        for n in fn.walk():
+            if n.k == "CallExpr" and callee(n)[0] == "fn" and callee(n)[1] in tu.funcs and \
+                    any(strip(a) is not None and strip(a).k == "DeclRefExpr" and strip(a).n in keyvars
+                        for a in n.kids[1:]):
+                for a in n.kids[1:]:
+                    a0 = strip(a)
+                    if a0 is not None and a0.k == "UnaryOperator" and a0.v == "&":
+                        b = strip(a0.kids[0])
+                        if b is not None and b.k == "DeclRefExpr" and "key" in b.n.lower():
+                            keyvars.add(b.n)      # filled by the callee from the key argument
         inserts = []
         for nd in live:
             if nd.e is None or nd.kind == "branch":
@@ -117,6 +164,7 @@ def analyse_tu(tu):
         sites += len(inserts)
         an = KeyCheck(cfg, tu, set(nd.id for nd, _ in inserts))
         an.track_flags = False
+        an.cond_checkers = conditional_checkers(tu)
         an.solve()
         if an.bad:
             nd, st = an.bad[0]
